@@ -40,12 +40,28 @@ func ZZLockedConcurrent() {
 		x.o = oc(model.NewHandler(w.m1, w.now), model.NewHandler(w.m2, w.now), x.rec)
 		return x
 	}
+	if rt.Param("disjoint", 0) == 1 {
+		// C14: two connections without any lock wrapper working on different keys
+		ocMain, ocBatch = orcas.L1L2, orcas.L1L2Batch
+	}
 	a := mk("a.", ocMain)
 	bOC := ocMain
 	if bPort == 1 {
 		bOC = ocBatch
 	}
 	b := mk("b.", bOC)
+	if rt.Param("disjoint", 0) == 1 {
+		if a.c.kind == cmdGet {
+			a.c.keys[0] = 0
+		} else {
+			a.c.key = 0
+		}
+		if b.c.kind == cmdGet {
+			b.c.keys[0] = 1
+		} else {
+			b.c.key = 1
+		}
+	}
 	exec := func(x *conn) {
 		req, typ := x.c.request()
 		var err error
